@@ -322,6 +322,26 @@ Proof.
 Qed.
 Print Assumptions nesting_lowering_expand_preserves_specificity_refuted.
 
+From V Require Import C12.HslSpec C12.HslModel.
+(* hsl() / hwb() TO sRGB.  HslSpec.v is the CSS Color 4 conversion (sample code of
+   sections 7.1 and 8.1: hue taken modulo 360 for ANY number of turns, positive or
+   negative; percentages clamped) in exact rationals; HslModel.v mirrors
+   hslToRgb / hueToRgb / hwbToRgb of css_decls_color.go (hue - floor(hue)).  Both
+   are compared with the bytes esbuild prints by hslrgb_cases (hues over many
+   turns in number / deg / grad / turn form, percentages at and beyond the
+   boundaries).  Partial: model = spec is proved on a grid (every multiple of 30
+   degrees over six turns, hues next to the breakpoints and turn boundaries,
+   percentages -10, 0, 30, 50, 70, 100), not for all rationals. *)
+Theorem hsl_to_rgb_is_spec_partial : forall h s l, In h hue_grid -> In s pct_grid -> In l pct_grid ->
+  rgb_eqb (model_hsl (QArith_base.inject_Z h) (QArith_base.inject_Z s) (QArith_base.inject_Z l)) (hsl_spec (QArith_base.inject_Z h) (QArith_base.inject_Z s) (QArith_base.inject_Z l)) = true.
+Proof. exact hsl_grid_all. Qed.
+Print Assumptions hsl_to_rgb_is_spec_partial.
+
+Theorem hwb_to_rgb_is_spec_partial : forall h w k, In h hue_grid -> In w pct_grid -> In k pct_grid ->
+  rgb_eqb (model_hwb (QArith_base.inject_Z h) (QArith_base.inject_Z w) (QArith_base.inject_Z k)) (hwb_spec (QArith_base.inject_Z h) (QArith_base.inject_Z w) (QArith_base.inject_Z k)) = true.
+Proof. exact hwb_grid_all. Qed.
+Print Assumptions hwb_to_rgb_is_spec_partial.
+
 (* DUPLICATE DECLARATIONS AT A DISTANCE.  The back-to-front duplicate removal over
    a declaration list keeps exactly the LAST occurrence of every declaration,
    where identity includes the property, the value and !important: a declaration
